@@ -339,7 +339,9 @@ def build_real(h, values, mobile=None, scripted_table=True):
             continue
         seq = [conv(values[var.decl().name()]) for pc, a, var in lst if values.get("__pc__" + var.decl().name(), True)]
 
-        def patched(*a, _seq=seq, _attr=attr, _lst=lst, **k):
+        orig = getattr(R, attr, None)
+
+        def patched(*a, _seq=seq, _attr=attr, _lst=lst, _orig=orig, **k):
             if _attr == "gn_geometric_function_f":
                 # one model value per distinct argument tuple: find the tuple that matches the actual arguments
                 for pc_, sa, var in _lst:
@@ -349,6 +351,12 @@ def build_real(h, values, mobile=None, scripted_table=True):
                             return float(values[var.decl().name()])
                     except Exception:
                         continue
+                # arguments the model never evaluated (a changed call site): the real geometric function answers
+                import os
+                if os.environ.get("VERIF_DEBUG_GEOM"):
+                    print("GEOM actual", a, "known", [[G.concretize(x, values) for x in sa] for pc_, sa, var in _lst], flush=True)
+                if _orig is not None:
+                    return _orig(*a)
                 raise AssertionError("replay: geometric function called with arguments the model does not know")
             if not _seq:
                 raise AssertionError(f"replay: unexpected extra call of {_attr}")
